@@ -20,11 +20,24 @@ import (
 var timeFields = []string{"Year", "Month", "Day", "Hour", "Minute", "Second", "Nanosecond"}
 
 func timePrelude() string {
-	s := "(declare-fun g_tutc (Int) Int)\n(declare-fun g_tzero (Int) Bool)\n"
+	s := "(declare-fun g_tutc (Int) Int)\n(declare-fun g_tzero (Int) Bool)\n(declare-fun g_utf16ascii (" + SSeqI + ") " + SSeqI + ")\n"
 	for _, f := range timeFields {
 		s += fmt.Sprintf("(declare-fun g_t%s (Int) Int)\n", f)
 	}
 	return s
+}
+
+// utf16Axioms: the unfolding of utf16ascii matches on every (slice, index) pair, so it is only
+// given to queries that mention the function.
+func utf16Axioms() string {
+	return `
+(assert (= (g_utf16ascii g_SeqI_empty) g_SeqI_empty))
+(assert (forall ((s g_SeqI)) (! (= (g_SeqI_len (g_utf16ascii s)) (* 2 (g_SeqI_len s))) :pattern ((g_utf16ascii s)))))
+(assert (forall ((s g_SeqI)) (! (=> (g_isbytes s) (g_isbytes (g_utf16ascii s))) :pattern ((g_utf16ascii s)))))
+(assert (forall ((s g_SeqI) (i Int)) (! (=> (and (<= 0 i) (< i (g_SeqI_len s)))
+   (= (g_utf16ascii (g_SeqI_sl s 0 (+ i 1))) (g_SeqI_build (g_SeqI_build (g_utf16ascii (g_SeqI_sl s 0 i)) (g_SeqI_idx s i)) 0)))
+   :pattern ((g_utf16ascii (g_SeqI_sl s 0 i)) (g_SeqI_idx s i)))))
+`
 }
 
 func timePreludeQ() string {
@@ -57,7 +70,7 @@ func init() {
 				return one(st, x.symResult(st, cc))
 			}
 			a := st.fresh("now", SInt)
-			st.ghost["clock"] = TV{SInt, a}
+			st.ghost["clock"] = TV{SSeqI, sBuild(SSeqI, x.clockGet(st), a)}
 			return one(st, TV{sort, d.Make([]string{a})})
 		})
 	ext("(time.Time).UTC", "Time.UTC: the same instant with the location set to UTC (idempotent)",
@@ -125,11 +138,38 @@ func init() {
 	specFuncs["bigenc"] = func(e *specEnv, args []SV) SV { // bigenc(bigval(p))
 		return SV{V: TV{SSeqI, app("g_bigenc", e.term(args[0]))}, T: types.NewSlice(types.Typ[types.Uint8])}
 	}
-	specFuncs["now"] = func(e *specEnv, args []SV) SV { // the last clock reading
-		if g, ok := e.st.ghost["clock"]; ok {
-			return SV{V: g}
+	specFuncs["builderok"] = func(e *specEnv, args []SV) SV { // no operation on the cryptobyte.Builder has failed so far
+		p, ok := args[0].V.(PtrV)
+		if !ok || p.Ref == "" || ghostFor(p.Elem) != "cryptobyte.Builder" {
+			return e.fail("builderok() needs a *cryptobyte.Builder")
 		}
-		return e.fail("now(): the clock was not read")
+		d := e.x.w.DTByName(p.RootSort)
+		return SV{V: TV{SBool, tNot(d.Get(1, e.st.heapSelect(p.RootSort, p.Ref)))}}
+	}
+	specFuncs["utf16ascii"] = func(e *specEnv, args []SV) SV { // each byte followed by a zero byte (UTF-16LE of ASCII text)
+		return SV{V: TV{SSeqI, app("g_utf16ascii", e.term(args[0]))}, T: types.NewSlice(types.Typ[types.Uint8])}
+	}
+	specFuncs["lastsig"] = func(e *specEnv, args []SV) SV { // what the last successful crypto.Signer.Sign returned
+		if g, ok := e.st.ghost["lastsig"]; ok {
+			return SV{V: g, T: types.NewSlice(types.Typ[types.Uint8])}
+		}
+		e.x.w.Decl("(declare-fun g_nosig () " + SSeqI + ")") // total: unspecified when nothing was signed
+		return SV{V: TV{SSeqI, "g_nosig"}, T: types.NewSlice(types.Typ[types.Uint8])}
+	}
+	specFuncs["signedby"] = func(e *specEnv, args []SV) SV { // signedby(signer, digest, sig)
+		iv, ok := args[0].V.(IfaceV)
+		if !ok || iv.Sym == "" {
+			return e.fail("signedby() needs a symbolic signer")
+		}
+		e.x.w.Decl("(declare-fun g_signedby (Int " + SSeqI + " " + SSeqI + ") Bool)")
+		return SV{V: TV{SBool, app("g_signedby", iv.Sym, e.term(args[1]), e.term(args[2]))}}
+	}
+	specFuncs["now"] = func(e *specEnv, args []SV) SV { // the last clock reading (unspecified if there is none)
+		c := e.x.clockGet(e.st)
+		return SV{V: TV{SInt, sIdx(SSeqI, c, tSub(sLen(SSeqI, c), "1"))}}
+	}
+	specFuncs["readings"] = func(e *specEnv, args []SV) SV { // all clock readings of the process so far, in order
+		return SV{V: TV{SSeqI, e.x.clockGet(e.st)}}
 	}
 	specFuncs["utc"] = func(e *specEnv, args []SV) SV {
 		return SV{V: TV{SInt, app("g_tutc", e.term(args[0]))}}
@@ -177,4 +217,18 @@ func (e *specEnv) timeTerm(v SV) string {
 		}
 	}
 	return e.term(v)
+}
+
+// clockGet: the ghost sequence of wall clock readings; untouched, it is one shared constant per unit.
+func (x *Exec) clockGet(st *State) string {
+	if g, ok := st.ghost["clock"]; ok {
+		return g.(TV).E
+	}
+	if x.initialClock == "" {
+		x.freshN++
+		x.initialClock = fmt.Sprintf("g_clock_init_%d", x.freshN)
+		x.w.Decl(fmt.Sprintf("(declare-fun %s () %s)", x.initialClock, SSeqI))
+	}
+	st.ghost["clock"] = TV{SSeqI, x.initialClock}
+	return x.initialClock
 }
